@@ -26,17 +26,17 @@ CLAIMS = {
  "C14": ("ledger", "model_checking", LEDGER_LEVEL + "; streams of real ledgers loaded into fresh real nodes - through the book's channel and through the real transport (the source's gossip server on a loopback gRPC port, the proto mapping both ways, the loading node's updateDag) - single corruptions of the stream, follow-up traffic to both nodes", LEDGER_NOTE),
  "C17": ("cache", "model_checking", "TLC explores every interleaving of the individual bigcache calls of concurrent save / remove / read operations (AwaitCache.tla, mutex-guarded as in the repaired code) and checks the quiescence invariant (listed for issuer and receiver, nothing else, nothing twice) and that only the receiver removes; on the real Hippocampus sequential call sequences are judged call by call against the specification, every two-call interleaving is forced at the gate between list read and list write, and free-running goroutines on shared addresses end in states TLC judges with the same invariant",
          "trusted: VerifPeek (read-only hook), bigcache single calls atomic, TLC; expiry/eviction are excluded by running with an unbounded cache inside the life window"),
- "C20": ("file", "fault_enumeration", "WalletFile.tla states what Decrypt + GOB decoding return for every file length, every changed byte position and every key class (AEAD axiom; the unchecked slice is a named deviation switch); TLC enumerates it at scaled region lengths, and the driver executes ALL concrete members on the real code - every truncation length 0..len, every single-byte position with several values, wrong keys, single key-bit flips, keys of invalid length, PEM round trip - with TLC judging each recorded outcome against the specification",
+ "C20": ("file", "fault_enumeration", "WalletFile.tla states what Decrypt + GOB decoding return for every file length, every changed byte position and every key class (AEAD axiom; the unchecked slice is a named deviation switch); TLC enumerates it at scaled region lengths, and the driver executes ALL concrete members on the real code - every truncation length 0..len, every single-byte position with several values, wrong keys, single key-bit flips, keys of invalid length, keys related to the right one (extended, prefix), files saved over an older wallet, saves nested between each other's encode / seal / write steps, savers side by side, PEM round trip - with TLC judging each recorded outcome against the specification",
          "trusted: crypto/aes, cipher.GCM and encoding/gob behave as the AEAD axiom says; TLC"),
- "C11": ("gossip", "model_checking", "TLC explores GossipNet.tla from every connected symmetric peer graph on 2, 3 and 4 nodes, every delivery order with duplicates, for a vertex, a vertex plus an awaiting transaction, and parent-linked vertices (admitted once, forwarded once, never sent to a verified gossiper, forwarded only after acceptance, termination, everybody reached - the last one modulo the TLA+ signature of known finding F13); TLC-simulated delivery orders are replayed on a virtual network of real gossipers (real ledgers, caches, flash memory, pipes; stub clients) and every delivery is judged by TLC against the specification's Receive / Pull / Retry",
+ "C11": ("gossip", "model_checking", "TLC explores GossipNet.tla from every connected symmetric peer graph on 2, 3 and 4 nodes, every delivery order with duplicates, for a vertex, a vertex plus an awaiting transaction, and parent-linked vertices (admitted once, forwarded once, never sent to a verified gossiper, forwarded only after acceptance, termination, everybody reached - the last one modulo the TLA+ signature of known finding F13); TLC-simulated delivery orders and a burst of vertices accepted while the origin loops are stalled are replayed on a virtual network of real gossipers (real ledgers, caches, flash memory, pipes; stub clients) and every delivery is judged by TLC against the specification's Receive / Pull / Retry",
          "trusted: stub transport with deep-copied messages, quiescence detection from goroutine stacks, gossiper-list decoding in the driver, TLC; the 20 s flash window does not expire within a run"),
- "C12": ("gossip", "model_checking", "as C11 with an adversarial relay at different positions that sends known items with lists assembled from garbage, its own key under other addresses, and honest entries lifted from other messages; TLC checks that only valid entries count (a node skips processing / is skipped only on its own valid signature for this item) and that every honest node with an honest path to the origin is reached; the forged lists are replayed against the real handlers and each delivery is judged by TLC",
+ "C12": ("gossip", "model_checking", "as C11 with an adversarial relay at different positions that sends known items with lists assembled from garbage (also 120 entries long), its own key under other addresses, and honest entries lifted from other messages; TLC checks that only valid entries count (a node skips processing / is skipped only on its own valid signature for this item) and that every honest node with an honest path to the origin is reached; the forged lists are replayed against the real handlers and each delivery is judged by TLC",
          "as C11; forged ITEMS (a hash announced with corrupted content, which poisons the flash memory) are outside this property's quantifier over lists - see DESIGN.md F14"),
- "C16": ("notary", "model_checking", "TLC explores Notary.tla - propose / confirm / reject / challenge / waiting / history / balance / saved requests by an honest issuer, an honest receiver and a third key, with the form in which the signed bytes are presented (as issued or re-split), challenge expiry, the read throttle, and handlers split between cache removal and ledger call - for: contracts sealed only through an act of the receiver (modulo the TLA+ signature of known finding F11), at most once, transfers never parked; TLC-simulated and directed call sequences incl. bursts of identical concurrent requests are executed on the real server (real ledger, cache, flash, challenge store) and TLC judges every reply and the observed cache / ledger content",
+ "C16": ("notary", "model_checking", "TLC explores Notary.tla - propose / confirm / reject / challenge / waiting / history / balance / saved requests by an honest issuer, an honest receiver and a third key, with the form in which the signed bytes are presented (as issued or re-split), challenge expiry, the read throttle, and handlers split between cache removal and ledger call - for: contracts sealed only through an act of the receiver (modulo the TLA+ signature of known finding F11), at most once, transfers never parked; TLC-simulated and directed call sequences incl. bursts of identical concurrent requests (losers answered like a repetition), an oversize contract, and balance reads after the read throttle has lapsed are executed on the real server (real ledger, cache, flash, challenge store) and TLC judges every reply and the observed cache / ledger content",
          "trusted: handlers are called as Go methods (no TLS/gRPC), challenge expiry by sleeping past a 1 s longevity, TLC"),
- "C15": ("shapes", "exploration", "RpcShapes.tla abstracts every request of the notary, gossip and webhook services to the class of each bytes / sub-message / address field and states the contract (a reply or an error, never a crash; unacceptable shapes are refused; a refusal adds nothing to ledger, awaiting cache or peer table); TLC enumerates the shape space (each field against a valid request, all pairs, the full product for SignedHash requests; triples in the thorough tier) and every enumerated shape is built concretely and sent to the real handlers under recover(), with TLC judging the recorded outcomes",
+ "C15": ("shapes", "exploration", "RpcShapes.tla abstracts every request of the notary, gossip and webhook services to the class of each bytes / sub-message / address field and states the contract (a reply or an error, never a crash; unacceptable shapes are refused; a refusal adds nothing to ledger, awaiting cache or peer table); TLC enumerates the shape space (each field against a valid request, all pairs, the full product for SignedHash requests; triples in the thorough tier) and every enumerated shape is built concretely and sent to the real handlers under recover(), with TLC judging the recorded outcomes; Announce / Discover requests (forged, replayed, genuine, and valid ones overlapping) go over loopback gRPC to real gossip servers and are judged against Membership.tla",
          "trusted: handlers are called as Go methods with message structs built directly (nil sub-messages included) rather than decoded from bytes; coverage-guided mutation of serialized requests is not attempted; TLC"),
- "C04": ("seal", "model_checking", "Seal.tla is a symbolic (Dolev-Yao style) model of which bytes go into which digest (the transaction message as a bare concatenation, the vertex digest, the receiver signature that is checked only when present, self-checking addresses); TLC applies every mutation of the quantifier to every honest vertex of a bounded universe and reports exactly two ways around the signatures (known findings F11, F12); all concrete members of every abstract mutation - every single-bit flip of every fixed-size field, every address position, truncations / extensions, boundary moves, swaps between two valid vertices, replaced / stripped signatures and addresses, seeded multi-bit flips - are offered to a real node, which must admit a copy exactly when the abstract copy verifies in the model and change nothing when it refuses",
+ "C04": ("seal", "model_checking", "Seal.tla is a symbolic (Dolev-Yao style) model of which bytes go into which digest (the transaction message as a bare concatenation, the vertex digest, the receiver signature that is checked only when present, self-checking addresses); TLC applies every mutation of the quantifier to every honest vertex of a bounded universe and reports exactly two ways around the signatures (known findings F11, F12); all concrete members of every abstract mutation - every single-bit flip of every fixed-size field, every address position, truncations / extensions, boundary moves, swaps between two valid vertices, replaced / stripped signatures and addresses, seeded multi-bit flips, each also to a node that trusts the sealer, twins of a vertex that is parked with an unknown parent, a self-addressed countersigned transaction - are offered to a real node, which must admit a copy exactly when the abstract copy verifies in the model and change nothing when it refuses",
          "trusted: cryptographic strength of ed25519 / sha256 (hashing injective, signatures unforgeable); TLC; LoadDag trusts its stream (no signature check) and is outside this check"),
  "C18": ("race", "exploration", "the Go race detector judges a seeded concurrent workload over the ledger's public API with the real background loops running (retry ticker, subscriber, truncation loop), the awaiting cache and the gossip handlers; the specification contributes what to overlap (every pair of ledger operations is co-enabled in Ledger.tla, so the workload overlaps all of them) - the verdict itself is not TLC's",
          "trusted: Go race detector; only races that occur in the explored schedules are reported"),
@@ -69,6 +69,8 @@ m = {"version": 1, "setup_cmd": "./check setup",
          "serves_properties": ["C04"], "kind_free_text": "symbolic TLA+ model of signature coverage; all concrete mutations offered to a real node; TLC trace validation"},
         {"name": "race", "path": "harness/cmd/drive/racedrv.go runner/racechk.py", "serves_properties": ["C18"],
          "kind_free_text": "Go race detector over a concurrent workload (co-enabled operations from Ledger.tla)"},
+        {"name": "membership", "path": "specs/Membership.tla specs/MembershipTrace.tla harness/cmd/drive/memberdrv.go runner/memberchk.py",
+         "serves_properties": ["C15"], "kind_free_text": "TLA+ specification of the discovery protocol (Discover / Announce / joiner's loop, adversary, failures); TLC; real gossipers behind loopback gRPC servers; TLC trace validation (also ./check M01)"},
         {"name": "locks", "path": "specs/WalkLocks.tla specs/WalkLocksMC.tla specs/WalkLocksTrace.tla harness/cmd/drive/locks.go runner/locks.py",
          "serves_properties": ["C08"], "kind_free_text": "explicit TLA+ specification of locks, walker goroutines and channels; TLC safety + liveness; real-code fault enumeration judged by TLC"}],
      "checks": [], "not_applicable": [], "notes": "see DESIGN.md; known findings in known_findings.json"}
